@@ -403,6 +403,8 @@ def run(ck):
     ck.ob("R5", "parity:low-byte", ("tmp=%s&255" % ap) in txt, eh.where(pf), "parity must be computed on the low byte only")
     ck.ob("R5", "parity:even-is-1", "cpt=1" in txt and "cpt^=tmp&1" in txt and "tmp>>=1" in txt, eh.where(pf), "parity must be 1 for an even number of set bits")
     _r5_counts(ck, m, fn)
+    from rules._composites import flag_formula_rules
+    flag_formula_rules(ck, "R5", sx.where(sf))
     _r5_views(ck, m, cmpf, tok_consts(ck.repo))
 
 
